@@ -262,6 +262,9 @@ pub struct Alphabet {
     /// subscription handlers unsubscribe themselves (through a WeakState and their own token)
     /// when they receive their first `Changed`
     pub handler_self_unsub: bool,
+    /// subscription handlers write `(delivered value + 1) mod 3` to this variable on every
+    /// Initialised / Changed they receive (families keep max_subs = 1: no ordering question)
+    pub handler_sets_var: Option<u8>,
 }
 
 impl Default for Alphabet {
@@ -283,6 +286,7 @@ impl Default for Alphabet {
             closures_read_observers: false,
             observable: vec![],
             handler_self_unsub: false,
+            handler_sets_var: None,
         }
     }
 }
@@ -295,7 +299,7 @@ impl Alphabet {
             "unsubscribe": self.unsubscribe, "state_unsubscribe": self.state_unsubscribe, "on_update": self.on_update,
             "observe_inner": self.observe_inner, "max_observers": self.max_observers, "max_subs": self.max_subs,
             "closures_read_observers": self.closures_read_observers, "observable": self.observable,
-            "handler_self_unsub": self.handler_self_unsub,
+            "handler_self_unsub": self.handler_self_unsub, "handler_sets_var": self.handler_sets_var,
         })
     }
     pub fn from_json(j: &Json) -> Option<Alphabet> {
@@ -316,6 +320,7 @@ impl Alphabet {
             max_subs: j.get("max_subs")?.as_u64()? as u8,
             closures_read_observers: b("closures_read_observers"),
             handler_self_unsub: b("handler_self_unsub"),
+            handler_sets_var: j.get("handler_sets_var").and_then(|v| v.as_u64()).map(|x| x as u8),
             observable: j
                 .get("observable")
                 .and_then(|v| v.as_array())
